@@ -64,12 +64,18 @@ Intermolecular(i, j, p1, p2) ==
               /\ buffer' = buffer /\ res' = [k |-> "accepted"]
        ELSE UNCHANGED <<pe, ke, buffer>> /\ res' = [k |-> "rejected"]
 
-\* synthesis of molecules i # j into one molecule with objective p1 (takes i's place, j disappears)
+\* synthesis of molecules i # j into one molecule with objective p1: both reactants disappear and the product gets ONE
+\* record; which slot it takes is not fixed by the statement (the code uses a reactant's slot), only that the
+\* individual and its molecule record sit at the same position k and everyone else keeps their relative order
+InsertAt(q, k, x) == SubSeq(q, 1, k - 1) \o <<x>> \o SubSeq(q, k, Len(q))
+Without2(q, i, j) == IF i < j THEN Remove(Remove(q, j), i) ELSE Remove(Remove(q, i), j)
 Synthesis(i, j, p1) ==
     LET e == pe[i] + ke[i] + pe[j] + ke[j] - p1 IN
     /\ act' = A("synthesis", i, j, p1, 0) /\ h' = h - 2
     /\ IF e >= 0
-       THEN /\ pe' = Remove([pe EXCEPT ![i] = p1], j) /\ ke' = Remove([ke EXCEPT ![i] = e], j)
+       THEN /\ \E k \in 1..(N - 1) :
+                 /\ pe' = InsertAt(Without2(pe, i, j), k, p1)
+                 /\ ke' = InsertAt(Without2(ke, i, j), k, e)
             /\ buffer' = buffer /\ res' = [k |-> "accepted"]
        ELSE UNCHANGED <<pe, ke, buffer>> /\ res' = [k |-> "rejected"]
 
